@@ -248,6 +248,13 @@ func c20Gen(r *rand.Rand, tier string) []Case {
 	add([]sx.S{s1, p0(7), p0(8), u0}, "two-publishers-fail-same-subscriber-unsub-races", 1000)
 	add([]sx.S{s1, s2, p0(1), p0(2), u0}, "two-subs-two-pubs-unsub", 1000)
 	add([]sx.S{s2, p0(5), u0, s1, p0(6)}, "sub-pub-unsub-sub-pub", 1000)
+	// two subscribers fail on one event and an Unsubscribe removes the one that is first in the
+	// registry between the two sections of the publish; a later event shows who is still registered
+	sw := sx.L("sub", sx.L("s", "1", "-1", sx.Ints([]int{0}), sx.Ints([]int{1})))
+	sz := sx.L("sub", sx.L("s", "2", "0", sx.Ints([]int{1}), sx.Ints([]int{1})))
+	u1 := sx.L("unsub", "1")
+	add([]sx.S{sw, sz, p0(3), u1}, "two-fail-on-one-event-unsub-between-the-sections", 100)
+	add([]sx.S{sw, sz, p0(3), u1, p0(4)}, "two-fail-on-one-event-unsub-between-the-sections-then-an-event", 300)
 	// one Subscriber value behind several subscriptions (a connection that subscribes again after its
 	// first subscription failed and was removed; two subscriptions of one connection, one of which fails)
 	share = true
